@@ -224,10 +224,96 @@ def gen_cases(seed, chunk, n, tier):
     return out
 
 
+def exh_cases(seed, chunk, nchunks, tier):
+    """exhaustive small structures (see harness/small.py): every permutation of every small
+    fermionic array; every contraction of a small array with a partner over every axes subset"""
+    import itertools
+    import symmray as sr
+    from .. import small
+
+    rng = random.Random(seed * 31 + 3)
+    out = []
+    k = -1
+    for sym in ("Z2", "U1"):
+        for ndim in (1, 2, 3):
+            for a in small.arrays(sym, ndim, True, max_charges=2, seed=seed):
+                k += 1
+                if k % nchunks != chunk:
+                    continue
+                # (a) all permutations
+                steps = []
+                perms = list(itertools.permutations(range(ndim)))
+                for j, perm in enumerate(perms):
+                    steps.append({"out": [f"t{j}"], "op": "transpose", "in": ["a"], "params": {"axes": list(perm)}})
+                env = {"a": a}
+                res, env2 = impl.run_prog(env, steps)
+                orc = None
+                for j, perm in enumerate(perms):
+                    if "ok" not in res[j]:
+                        orc = f"transpose raised {res[j].get('msg')}"
+                        break
+                    exp, _ = oracle.gtranspose(oracle.dense(a), oracle.parity_vectors(a), list(perm))
+                    orc = oracle.embed_compare(env2[f"t{j}"], exp, [a.indices[q] for q in perm])
+                    if orc:
+                        orc = f"perm {perm}: {orc}"
+                        break
+                out.append(dict(case=_mk_case(env, steps), impl=stream.strip_py(res), oracle=orc,
+                                meta=dict(sym=sym, kind="exh-transpose", ndim=ndim),
+                                nontrivial=_odd_legs(a) >= 2, op="transpose", triggers=[]))
+                # (b) contractions with a partner over every non-empty axes subset (ndim <= 2)
+                if ndim > 2 or not a.blocks:
+                    continue
+                for r in range(1, ndim + 1):
+                    for S in itertools.permutations(range(ndim), r):
+                        free = sr.BlockIndex({c: 1 for c in ((0, 1) if sym == "Z2" else (0, 1))}, dual=rng.random() < 0.5)
+                        ib = [a.indices[i].conj() for i in S] + [free]
+                        order = list(range(len(ib)))
+                        rng.shuffle(order)
+                        ib2 = [ib[o] for o in order]
+                        xb = [order.index(q) for q in range(r)]
+                        b = gen.rand_array(rng, sym, indices=ib2, fermi=True, keep=rng.choice([0.7, 1.0]),
+                                           parity=rng.choice([0, 1]), label=3)
+                        steps = []
+                        for mode in ("blockwise", "fused"):
+                            steps.append({"out": [f"c_{mode}"], "op": "tensordot", "in": ["a", "b"],
+                                          "params": {"axes": [list(S), xb], "mode": mode}})
+                        env = {"a": a, "b": b}
+                        res, env2 = impl.run_prog(env, steps)
+                        orc = None
+                        exp, labels = oracle.graded_tensordot(a, b, list(S), xb)
+                        full = [ix for i, ix in enumerate(a.indices) if i not in S] + \
+                               [ix for i, ix in enumerate(b.indices) if i not in xb]
+                        for j, mode in enumerate(("blockwise", "fused")):
+                            if "ok" not in res[j]:
+                                orc = f"tensordot raised {res[j].get('msg')}"
+                                break
+                            c = env2[f"c_{mode}"]
+                            orc = oracle.embed_compare(c, exp, full)
+                            if orc is None and _labels(c) != labels:
+                                orc = f"labels {_labels(c)} != expected {labels}"
+                            if orc:
+                                orc = f"mode {mode}: {orc}"
+                                break
+                        out.append(dict(case=_mk_case(env, steps), impl=stream.strip_py(res), oracle=orc,
+                                        meta=dict(sym=sym, kind="exh-tensordot", ndim=ndim),
+                                        nontrivial=True, op="tensordot", triggers=[]))
+    return out
+
+
 def run(ctx):
     n = 8000 if ctx.tier == "quick" else 60000
     stream.run_stream(ctx, "graded", "harness.props.c03", "gen_cases", n, per_chunk=80,
                       canon_kw=dict(drop_zero=True))
+    # exhaustive small structures: complete in the thorough tier, a 1/16 slice in the quick tier
+    nch = 64
+    chunks = list(range(nch)) if ctx.tier == "thorough" else [ctx.seed % nch, (ctx.seed + 17) % nch, (ctx.seed + 41) % nch, (ctx.seed + 53) % nch]
+    stream.run_stream(ctx, "small", "harness.props.c03", "exh_cases", len(chunks), per_chunk=1,
+                      canon_kw=dict(drop_zero=True), extra_args=(), chunk_ids=chunks, nchunks=nch)
+    if ctx.tier == "thorough":
+        ctx.exhaustive = True
+        ctx.notes.append("exhaustive sub-scope completed: all fermionic Z2/U1 arrays with <= 3 indices of <= 2 charges "
+                         "(size 1), all dualness patterns, charges, full / one-missing sparsity: every permutation; "
+                         "for <= 2 indices every contraction with a partner over every ordered axes subset, both modes")
 
 
 def replay(ctx, payload):
